@@ -306,7 +306,7 @@ def static_events(case, t, k, sim, rng, want, build_opts=None, solve_opts=None, 
         x = forsys.forces[0]
         xs = [float(x[i]) for i in range(len(x))]
         finite = all(math.isfinite(v) for v in xs)
-        in_range = finite and all(abs(v) < 1900 for v in xs)
+        in_range = finite and all(abs(v) < 20 for v in xs)
         sev["finite"] = finite
         sev["in_range"] = in_range          # fixed-point range of the oracle; out of range = not judged
         sev["x"] = [fx(v) if in_range else 0 for v in xs]
@@ -627,7 +627,7 @@ def dynamic_events(case, spec, rng):
         x = forsys.forces[tau]
         xs = [float(x[i]) for i in range(len(x))]
         finite = all(math.isfinite(v) for v in xs) and bool(np.all(np.isfinite(b3)))
-        in_range = finite and all(abs(v) < 1900 for v in xs) and bool(np.all(np.abs(b3) < 1900))
+        in_range = finite and all(abs(v) < 20 for v in xs) and bool(np.all(np.abs(b3) < 1900))
         sev["finite"] = finite
         sev["in_range"] = in_range
         sev["x"] = [fx(v) if in_range else 0 for v in xs]
